@@ -1013,7 +1013,7 @@ def run(ctx):
         compare_tables(ctx, tables)
 
         # ---- 2. code -> spec: record life cycles, validate them in the background
-        ntr = 300 if quick else 1500
+        ntr = 300 if quick else 1000
         recipes = [gen_recipe(rng, tables) for _ in range(ntr)]
         for big, cnt in ((100, 2), (257, 1), (1000, 1)) if quick else ((100, 12), (257, 6), (1000, 3)):
             recipes += [gen_recipe(rng, tables, big=big) for _ in range(cnt)]
